@@ -75,6 +75,21 @@ def replay_all(ctx, bs, family, threaded_groups=0):
                 others[m.family] = others.get(m.family, 0) + 1
         if bi < 2:
             ctx.sample({"behaviour": [[s["action"]] + [json.dumps(s["args"])] for s in b][:12]})
+    if family == "purity":
+        # two DIFFERENT wallets whose masters share the 4-byte fingerprint (cd9258b3), one after the other in this
+        # process: anything the library remembers between calls must be keyed by the key, not by a short identifier
+        twins = ("7bee9dfd28a669f86d855cf2c6543794", "3eb5458358ca365bb3f4fb41f8c65947")
+        for b in [x for x in bs if x[0].get("net", "main") == "main"][:4 if ctx.quick else 40]:
+            for sd in twins + twins[:1]:
+                try:
+                    hdreplay.run_behaviour(b, seed_hex=sd)
+                    ctx.traces += 1
+                    ctx.nontriv(("twin-fingerprint-wallets",))
+                except hdreplay.Mismatch as m:
+                    if m.family == family:
+                        ctx.violation("hdwallet-replay-twins", m.family, m.what + " (second of two wallets with equal master fingerprints)",
+                                      {"mode": "twins", "behaviour": b, "seeds": list(twins)})
+                    break
     g = 0
     i = 0
     while g < threaded_groups and i + 4 <= len(bs):
@@ -98,6 +113,19 @@ def replay_all(ctx, bs, family, threaded_groups=0):
         ctx.notes["mismatches_of_other_properties"] = {PROP_OF[k]: v for k, v in others.items()}
 
 
+def cold_start(ctx, family):
+    """fresh processes whose first use of the library is multi-threaded (one-time initialisation under a race)"""
+    try:
+        n = hdreplay.cold_start_threads(nproc=4 if ctx.quick else 40, nthreads=8, seed=ctx.seed)
+        ctx.notes["cold_start_thread_answers_compared"] = n
+        ctx.evaluations += n
+    except hdreplay.Mismatch as m:
+        if m.family == family:
+            ctx.violation("cold-start-threads", m.family, m.what, {"mode": "cold-start", "seed": ctx.seed})
+        else:
+            ctx.notes.setdefault("mismatches_of_other_properties", {})[PROP_OF[m.family]] = 1
+
+
 def run(ctx):
     model_runs(ctx)
     negative_tests(ctx, [("memo", "Pure")])
@@ -111,6 +139,7 @@ def run(ctx):
         ctx.traces += st["threads"]
     except hdreplay.Mismatch as m:
         ctx.violation("hdwallet-thread-stress", m.family, m.what, {"mode": "stress", "seed": ctx.seed})
+    cold_start(ctx, FAMILY)
     # binding self-check: a behaviour with one step's result tampered with must be flagged
     ctx.binding_selfcheck = selfcheck(bs)
     return ctx.finish(
@@ -146,6 +175,11 @@ def replay(ctx, path):
     try:
         if rp.get("mode") == "stress":
             hdreplay.stress_threads(seconds=30, seed=rp.get("seed", 0))
+        elif rp.get("mode") == "twins":
+            for sd in list(rp["seeds"]) + list(rp["seeds"])[:1]:
+                hdreplay.run_behaviour(rp["behaviour"], seed_hex=sd)
+        elif rp.get("mode") == "cold-start":
+            hdreplay.cold_start_threads(nproc=12, nthreads=8, seed=rp.get("seed", 0))
         elif rp.get("mode") == "threads":
             hdreplay.run_threaded(rp["behaviours"])
         else:
